@@ -12,6 +12,7 @@ RULE = ("plans drawn from a seeded swarm: listener kind (http/socks4/4a/5/revers
         "(segmentation, short writes/reads, delays, tiny pipes, spurious Pending, task yields) x 1-6 concurrent tunnels x payload "
         "lengths x early data x who-speaks-first; a run is non-trivial when at least one tunnel was reported established and "
         "relayed >=1 byte in each direction under a chaos level other than 'none'; distinct = distinct event-order hash")
+RULE_MORE = 'Later additions: kernel-lane back-pressure with seeded short splice counts; casualty tunnels whose far end aborts mid-stream; diverted (TPROXY TCP) clients; CONNECT heads with a whitespace-only line (the header lines behind it must never reach a destination); SOCKS4a names that are IPv6 literals; scheduling points at the asynchronous locks.'
 LEVEL_TEXT = ("seeded exploration of the real proxy binary on a simulated network: every listener x connector pairing incl. TLS, QUIC, "
               "load-balancing and two-hop chains through the proxy's own listeners, under seeded segmentation, short writes/reads, delays, "
               "back-pressure, task-order perturbation and concurrent tunnels; the oracle verifies every byte of both directions online "
